@@ -110,6 +110,7 @@ func updateSelfRefsFromBinding(edits editSet, binding *syntax.BindStm,
 		Pipeline: pipe,
 		Call:     call,
 		Binding:  binding,
+		Id:       binding.Id,
 		Mods:     isMods,
 		Exp:      exp,
 	})
